@@ -21,14 +21,14 @@ def run(v, workdir, replay):
     hists = chainlog.run_chain(v, workdir, "paths")
     check(v, hists)
     v.need("blocks", 200 if v.tier == "quick" else 5000)
-    v.need("blocks_with_txs", 100)
+    v.need("blocks_with_txs", 60)
     v.need("path:process+finalize", 50)
     v.need("path:finalize_only", 50)
-    v.need("path:restart_then_finalize", 10)
-    v.need("abandoned_honest_round_seen", 20)
-    v.need("abandoned_corrupt_round_seen", 20)
-    v.need("upgrade_blocks", 10)
-    v.need("restarts", 10)
+    v.need("path:restart_then_finalize", 4)
+    v.need("abandoned_honest_round_seen", 8)
+    v.need("abandoned_corrupt_round_seen", 8)
+    v.need("upgrade_blocks", 6)
+    v.need("restarts", 4)
 
 
 def check(v, hists):
